@@ -382,6 +382,9 @@ func trStmt(pi *pkgInfo, s ast.Stmt) string {
 	return ""
 }
 
+// functions printed in the first fragment (MiniGo/Syntax.v), by "pkg.Name": they may be called from the second
+var printedFuncs = map[string]bool{}
+
 func emitFunc(out *strings.Builder, pi *pkgInfo, name string) {
 	for _, f := range pi.files {
 		for _, d := range f.Decls {
@@ -413,6 +416,9 @@ func emitFunc(out *strings.Builder, pi *pkgInfo, name string) {
 				body := trBlock(pi, fd.Body)
 				fmt.Fprintf(out, "Definition go_%s_%s : func := {| f_name := %q; f_slices := [%s]; f_ints := [%s]; f_body :=\n %s |}.\n",
 					pi.name, name, pi.name+"."+name, strings.Join(slices, "; "), strings.Join(ints, "; "), body)
+				if len(slices) == 1 && len(ints) == 0 {
+					printedFuncs[pi.name+"."+name] = true
+				}
 			}()
 			return
 		}
@@ -531,10 +537,19 @@ func trSExpr(pi *pkgInfo, e ast.Expr) string {
 		if !ok {
 			fail(pi, e, "operator %s", x.Op)
 		}
+		switch x.Op {
+		case token.EQL, token.NEQ, token.LSS, token.LEQ, token.GTR, token.GEQ:
+			// a comparison is a boolean whatever go/types could make of its operands
+			return fmt.Sprintf("(XBin %s TBool %s %s)", op, trSExpr(pi, x.X), trSExpr(pi, x.Y))
+		}
 		return fmt.Sprintf("(XBin %s %s %s %s)", op, coqTy(pi, e, tv.Type), trSExpr(pi, x.X), trSExpr(pi, x.Y))
 	case *ast.CallExpr:
 		fn := types.ExprString(x.Fun)
 		switch {
+		case printedFuncs[pi.name+"."+fn] && len(x.Args) == 1:
+			// a function of this package that has been printed in the first fragment, applied to s, s[lo:] or s[lo:hi]
+			n, lo, hi := beArg(pi, x.Args[0])
+			return fmt.Sprintf("(XCall go_%s_%s %q %s %s)", pi.name, fn, n, lo, hi)
 		case (fn == "binary.BigEndian.Uint16" || fn == "binary.BigEndian.Uint32") && len(x.Args) == 1:
 			n, lo, hi := beArg(pi, x.Args[0])
 			return fmt.Sprintf("(XGetBE %s%%Z %q %s %s)", fn[len(fn)-2:], n, lo, hi)
@@ -700,6 +715,15 @@ func trSStmt(pi *pkgInfo, s ast.Stmt) string {
 				}
 				return fmt.Sprintf("TMake %q %s %s", l.Name, elemTy(pi, s, sl.Elem()), trSExpr(pi, call.Args[1]))
 			}
+			// the accessors of encoding/binary are not type-checked (no import is followed): what they return is known
+			if call, ok := x.Rhs[0].(*ast.CallExpr); ok {
+				switch types.ExprString(call.Fun) {
+				case "binary.BigEndian.Uint16":
+					return fmt.Sprintf("TDecl %q (TU 16) %s", l.Name, trSExpr(pi, x.Rhs[0]))
+				case "binary.BigEndian.Uint32":
+					return fmt.Sprintf("TDecl %q (TU 32) %s", l.Name, trSExpr(pi, x.Rhs[0]))
+				}
+			}
 			return fmt.Sprintf("TDecl %q %s %s", l.Name, coqTy(pi, s, v.Type()), trSExpr(pi, x.Rhs[0]))
 		case *ast.IndexExpr:
 			n, ok := sliceIdent(pi, l.X)
@@ -832,6 +856,14 @@ func trSStmt(pi *pkgInfo, s ast.Stmt) string {
 			// a Coq string literal: a quote is written twice
 			return fmt.Sprintf("TReturnIntErr %s \"%s\"", trSExpr(pi, x.Results[0]), strings.ReplaceAll(errText, "\"", "\"\""))
 		}
+		if len(x.Results) == 1 && curResultIsError {
+			// a function whose only result is an error: printed as (0, <error>)
+			errText := types.ExprString(x.Results[0])
+			if errText == "nil" {
+				errText = ""
+			}
+			return fmt.Sprintf("TReturnIntErr (XConst 0%%Z) \"%s\"", strings.ReplaceAll(errText, "\"", "\"\""))
+		}
 		if len(x.Results) == 1 {
 			if n, ok := sliceIdent(pi, x.Results[0]); ok {
 				return fmt.Sprintf("TReturn %q", n)
@@ -847,6 +879,9 @@ func trSStmt(pi *pkgInfo, s ast.Stmt) string {
 	fail(pi, s, "statement %T", s)
 	return ""
 }
+
+// the function being printed returns a single error
+var curResultIsError bool
 
 func emitSliceFunc(out *strings.Builder, pi *pkgInfo, name string) {
 	for _, f := range pi.files {
@@ -904,6 +939,7 @@ func emitSliceFunc(out *strings.Builder, pi *pkgInfo, name string) {
 				if fd.Type.Results == nil || len(fd.Type.Results.List) < 1 || len(fd.Type.Results.List) > 2 || len(fd.Type.Results.List[0].Names) != 0 {
 					fail(pi, fd, "result list")
 				}
+				curResultIsError = len(fd.Type.Results.List) == 1 && types.ExprString(fd.Type.Results.List[0].Type) == "error"
 				if len(fd.Type.Results.List) == 2 && (types.ExprString(fd.Type.Results.List[0].Type) != "int" || types.ExprString(fd.Type.Results.List[1].Type) != "error") {
 					fail(pi, fd, "two results that are not (int, error)")
 				}
@@ -1127,6 +1163,7 @@ func main() {
 				"RegsToFloat32", "RegsToFloat32SwapWords", "Float32ToRegs", "Float32ToRegsSwapWords"} {
 				emitSliceFunc(&out, pi, fn)
 			}
+			emitSliceFunc(&out, pi, "CheckRtuCrc")
 		}},
 		{"data", func(pi *pkgInfo) {
 			emitConsts(&out, pi, func(n string) bool {
